@@ -755,3 +755,280 @@ Proof.
   - intros e He. unfold parse_within, nested_list. rewrite decl_m_brackets by exact He. reflexivity.
   - unfold nested_list. rewrite slen_app, brackets_length. lia.
 Qed.
+
+(* ---------- 2a. bounded: one entry per opening bracket, and one more ---------- *)
+(* what a parser leaves is an end of what it was given *)
+Definition sfx (r s : string) : Prop := exists pre, s = pre ++ r.
+Lemma sfx_refl : forall s, sfx s s.
+Proof. intro s. exists "". reflexivity. Qed.
+Lemma sfx_trans : forall a b c, sfx a b -> sfx b c -> sfx a c.
+Proof. intros a b c [p1 H1] [p2 H2]. exists (p2 ++ p1). subst. now rewrite sapp_assoc. Qed.
+Lemma sfx_cons : forall r s c, sfx r s -> sfx r (String c s).
+Proof. intros r s c [pre H]. exists (String c pre). subst. reflexivity. Qed.
+Lemma sfx_app : forall a b, sfx b (a ++ b).
+Proof. intros a b. exists a. reflexivity. Qed.
+Lemma sfx_len : forall r s, sfx r s -> String.length r <= String.length s.
+Proof. intros r s [pre H]. subst. rewrite slen_app. lia. Qed.
+Lemma open_count_app : forall a b, open_count (a ++ b) = open_count a + open_count b.
+Proof. induction a as [|c a IH]; intro b; cbn [append open_count]; [reflexivity|]. rewrite IH. lia. Qed.
+Lemma sfx_open_count : forall r s, sfx r s -> open_count r <= open_count s.
+Proof. intros r s [pre H]. subst. rewrite open_count_app. lia. Qed.
+
+Lemma skip_ws_sfx : forall s, sfx (@skip_ws s) s.
+Proof.
+  induction s as [|c r IH]; cbn [skip_ws]; [apply sfx_refl|].
+  destruct (is_ws c); [apply sfx_cons; exact IH|apply sfx_refl].
+Qed.
+Lemma strip_prefix_app : forall m s r, strip_prefix m s = Some r -> s = m ++ r.
+Proof.
+  induction m as [|a m IH]; intros s r H; cbn [strip_prefix] in H.
+  - inversion H. reflexivity.
+  - destruct s as [|b s]; [discriminate|]. destruct (Ascii.eqb a b) eqn:E; [|discriminate].
+    apply Ascii.eqb_eq in E. subst b. cbn [append]. f_equal. apply IH. exact H.
+Qed.
+
+(* on texts with at most K opening brackets the parser answers Ok or Fail, and what an Ok leaves is an
+   end of the text (gd) / a shorter end (gdS) *)
+Definition gd (p : sparser) (K : nat) : Prop :=
+  forall s, open_count s <= K ->
+    match fst (p s) with Ok _ r => sfx r s | Fail => True | _ => False end.
+Definition gdS (p : sparser) (K : nat) : Prop :=
+  forall s, open_count s <= K ->
+    match fst (p s) with Ok _ r => sfx r s /\ String.length r < String.length s | Fail => True | _ => False end.
+
+Lemma gdS_gd : forall p K, gdS p K -> gd p K.
+Proof. intros p K H s Hs. specialize (H s Hs). destruct (fst (p s)); tauto. Qed.
+Lemma gd_le : forall p K K', gd p K -> K' <= K -> gd p K'.
+Proof. intros p K K' H Hle s Hs. apply H. lia. Qed.
+Lemma gdS_le : forall p K K', gdS p K -> K' <= K -> gdS p K'.
+Proof. intros p K K' H Hle s Hs. apply H. lia. Qed.
+
+Lemma atom_inv : forall m s n r, fst (@atom ty m s) = Ok n r -> skip_ws s = m ++ r.
+Proof.
+  intros m s n r H. unfold atom in H. destruct (strip_prefix m (skip_ws s)) as [r'|] eqn:E; [|discriminate].
+  cbn [fst] in H. inversion H; subst. apply strip_prefix_app. exact E.
+Qed.
+
+Lemma atom_gdS : forall m K, m <> "" -> gdS (@atom ty m) K.
+Proof.
+  intros m K Hm s _. destruct (fst (atom m s)) as [n r| | |] eqn:E; try exact I;
+    try (unfold atom in E; destruct (strip_prefix m (skip_ws s)); discriminate).
+  apply atom_inv in E. pose proof (skip_ws_sfx s) as Hw. split.
+  - apply (sfx_trans _ (skip_ws s)); [|exact Hw]. rewrite E. apply sfx_app.
+  - apply sfx_len in Hw. rewrite E, slen_app in Hw. destruct m; [congruence|]. cbn [String.length] in Hw. lia.
+Qed.
+
+(* after an opening bracket, one opening bracket less *)
+Lemma atom_open : forall c s n r, is_open c = true -> fst (@atom ty (String c "") s) = Ok n r -> open_count r < open_count s.
+Proof.
+  intros c s n r Hc H. apply atom_inv in H. pose proof (sfx_open_count _ _ (skip_ws_sfx s)) as Hw.
+  rewrite H in Hw. cbn [append open_count] in Hw. rewrite Hc in Hw. lia.
+Qed.
+
+Lemma token1_gdS : forall p1 p2 K, gdS (@token1 ty p1 p2) K.
+Proof.
+  intros p1 p2 K s _. unfold token1. pose proof (skip_ws_sfx s) as Hw.
+  destruct (skip_ws s) as [|c r]; cbn [fst]; [exact I|].
+  destruct (p1 c); cbn [fst]; [|exact I].
+  destruct (span p2 r) as [a b] eqn:E. cbn [fst]. apply span_spec in E as (E & _ & _). subst r. split.
+  - apply (sfx_trans _ (String c (a ++ b))); [|exact Hw]. apply sfx_cons, sfx_app.
+  - apply sfx_len in Hw. cbn [String.length] in Hw. rewrite slen_app in Hw. lia.
+Qed.
+
+Lemma struct_name_gdS : forall K, gdS struct_name K.
+Proof.
+  intros K s _. unfold struct_name. pose proof (skip_ws_sfx s) as Hw.
+  destruct (skip_ws s) as [|c r]; cbn [fst]; [exact I|].
+  destruct (is_alpha c); cbn [fst]; [|exact I].
+  destruct (span is_alnum_ r) as [a b] eqn:E. apply span_spec in E as (E & _ & _). subst r.
+  assert (Hb : sfx b s /\ String.length b < String.length s).
+  { split.
+    - apply (sfx_trans _ (String c (a ++ b))); [|exact Hw]. apply sfx_cons, sfx_app.
+    - apply sfx_len in Hw. cbn [String.length] in Hw. rewrite slen_app in Hw. lia. }
+  destruct b as [|x b]; cbn [fst]; [exact Hb|].
+  destruct (Ascii.eqb x "<") eqn:Hx.
+  2:{ destruct x as [[] [] [] [] [] [] [] []]; cbn [fst]; try exact Hb. discriminate. }
+  apply Ascii.eqb_eq in Hx. subst x.
+  destruct b as [|c2 r2]; cbn [fst]; [exact Hb|].
+  destruct (is_alpha c2); cbn [fst]; [|exact Hb].
+  destruct (span is_alnum_ r2) as [a2 b2] eqn:E2. apply span_spec in E2 as (E2 & _ & _). subst r2.
+  destruct b2 as [|y b3]; cbn [fst]; [exact Hb|].
+  assert (Hb3 : sfx b3 s /\ String.length b3 < String.length s).
+  { destruct Hb as [Hb1 Hb2]. split.
+    - apply (sfx_trans _ (String "<" (String c2 (a2 ++ String y b3)))); [|exact Hb1].
+      apply sfx_cons, sfx_cons. apply (sfx_trans _ (String y b3)); [apply sfx_cons, sfx_refl|apply sfx_app].
+    - cbn [String.length] in Hb2. rewrite slen_app in Hb2. cbn [String.length] in Hb2. lia. }
+  destruct y as [[] [] [] [] [] [] [] []]; cbn [fst]; try exact Hb; exact Hb3.
+Qed.
+
+Lemma and_loop_gd : forall ps K, Forall (fun p => gd p K) ps ->
+  forall s, open_count s <= K ->
+    match fst (and_loop ps s) with Ok _ r => sfx r s | Fail => True | _ => False end.
+Proof.
+  intros ps K HF. induction HF as [|p ps Hp HF IH]; intros s Hs; [cbn; apply sfx_refl|].
+  rewrite and_loop_fst_cons. specialize (Hp s Hs). destruct (fst (p s)) as [n s1| | |]; try exact Hp.
+  assert (Hs1 : open_count s1 <= K) by (apply sfx_open_count in Hp; lia).
+  specialize (IH s1 Hs1). destruct (fst (and_loop ps s1)) as [ns r| | |]; cbn [lift]; try exact IH.
+  apply (sfx_trans _ s1); assumption.
+Qed.
+
+Lemma pand_gd : forall cb ps K, Forall (fun p => gd p K) ps -> gd (pand cb ps) K.
+Proof.
+  intros cb ps K HF s Hs. rewrite pand_fst. pose proof (and_loop_gd ps K HF s Hs) as H.
+  destruct (fst (and_loop ps s)); cbn [lift]; exact H.
+Qed.
+
+(* an And whose first child always consumes *)
+Lemma pand_gdS : forall cb (p : sparser) ps K, gdS p K -> Forall (fun q => gd q K) ps -> gdS (pand cb (p :: ps)) K.
+Proof.
+  intros cb p ps K Hp HF s Hs. rewrite pand_fst, and_loop_fst_cons.
+  specialize (Hp s Hs). destruct (fst (p s)) as [n s1| | |]; cbn [lift]; try exact Hp.
+  destruct Hp as [Hsf Hlt].
+  assert (Hs1 : open_count s1 <= K) by (apply sfx_open_count in Hsf; lia).
+  pose proof (and_loop_gd ps K HF s1 Hs1) as H.
+  destruct (fst (and_loop ps s1)) as [ns r| | |]; cbn [lift]; try exact H.
+  split; [apply (sfx_trans _ s1); assumption|]. apply sfx_len in H. lia.
+Qed.
+
+(* an And that starts with an opening bracket: the other children see one opening bracket less *)
+Lemma pand_open : forall cb c ps K, is_open c = true ->
+  (forall K', K' < K -> Forall (fun q => gd q K') ps) -> gdS (pand cb (@atom ty (String c "") :: ps)) K.
+Proof.
+  intros cb c ps K Hc HF s Hs. rewrite pand_fst, and_loop_fst_cons.
+  pose proof (atom_gdS (String c "") K ltac:(discriminate) s Hs) as Ha.
+  destruct (fst (atom (String c "") s)) as [n s1| | |] eqn:E; cbn [lift]; try exact Ha.
+  destruct Ha as [Hsf Hlt]. pose proof (atom_open c s n s1 Hc E) as Ho.
+  pose proof (and_loop_gd ps (open_count s1) (HF (open_count s1) ltac:(lia)) s1 (le_n _)) as H.
+  destruct (fst (and_loop ps s1)) as [ns r| | |]; cbn [lift]; try exact H.
+  split; [apply (sfx_trans _ s1); assumption|]. apply sfx_len in H. lia.
+Qed.
+
+Lemma por_gdS : forall cb ps K, Forall (fun p => gdS p K) ps -> gdS (por cb ps) K.
+Proof.
+  intros cb ps K HF. induction HF as [|p ps Hp HF IH]; intros s Hs; [cbn; exact I|].
+  rewrite por_fst_cons. specialize (Hp s Hs). destruct (fst (p s)) as [n s1| | |]; try exact Hp.
+  apply IH. exact Hs.
+Qed.
+
+Lemma kleene_loop_gd : forall n (p : sparser) K, gdS p K ->
+  forall s, open_count s <= K -> String.length s < n ->
+    match fst (kleene_loop n p s) with Ok _ r => sfx r s | _ => False end.
+Proof.
+  intros n p K Hp. induction n as [|n IH]; intros s Hs Hn; [lia|]. rewrite kleene_loop_fst_S.
+  pose proof (Hp s Hs) as H. destruct (fst (p s)) as [x s1| | |]; try exact H; [|apply sfx_refl].
+  destruct H as [Hsf Hlt]. pose proof Hlt as Hlt'. apply Nat.ltb_lt in Hlt'. rewrite Hlt'.
+  assert (Hs1 : open_count s1 <= K) by (apply sfx_open_count in Hsf; lia).
+  specialize (IH s1 Hs1 ltac:(lia)).
+  destruct (fst (kleene_loop n p s1)) as [xs r| | |]; cbn [lift]; try exact IH.
+  apply (sfx_trans _ s1); assumption.
+Qed.
+
+Lemma kleene_gd : forall cb (p : sparser) K, gdS p K -> gd (kleene cb p) K.
+Proof.
+  intros cb p K Hp s Hs. rewrite kleene_fst.
+  pose proof (kleene_loop_gd (S (String.length s)) p K Hp s Hs ltac:(lia)) as H.
+  destruct (fst (kleene_loop _ p s)); cbn [lift]; tauto.
+Qed.
+
+Lemma maybe_gd : forall cb (p : sparser) K, gd p K -> gd (maybe cb p) K.
+Proof.
+  intros cb p K Hp s Hs. rewrite maybe_fst. specialize (Hp s Hs).
+  destruct (fst (p s)); try exact Hp. apply sfx_refl.
+Qed.
+
+Lemma basic_type_gdS : forall K, gdS basic_type K.
+Proof.
+  intro K. unfold basic_type. apply por_gdS. cbn [map basic_letters].
+  repeat constructor; apply atom_gdS; discriminate.
+Qed.
+
+Lemma member_list_gd : forall K, gd member_list K.
+Proof.
+  intro K. unfold member_list. apply kleene_gd. apply pand_gdS; [apply atom_gdS; discriminate|].
+  repeat constructor. apply gdS_gd, token1_gdS.
+Qed.
+
+Lemma struct_def_gd : forall K, gd struct_def K.
+Proof.
+  intro K. unfold struct_def. apply pand_gd. repeat constructor.
+  - apply gdS_gd, atom_gdS. discriminate.
+  - apply gdS_gd, struct_name_gdS.
+  - apply member_list_gd.
+  - apply gdS_gd, atom_gdS. discriminate.
+Qed.
+
+(* the type rule with more fuel than the text has opening brackets never runs out of fuel *)
+Lemma decl_m_gdS : forall f K, K < f -> gdS (decl_m f) K.
+Proof.
+  induction f as [|f IH]; intros K HK; [lia|].
+  intros s Hs. rewrite decl_m_S. revert s Hs.
+  fold (gdS (por None [basic_type; map_type (decl_m f); array_type (decl_m f); tuple_or_struct_type (decl_m f)]) K).
+  assert (Hd : forall K', K' < K -> gdS (decl_m f) K') by (intros K' HK'; apply IH; lia).
+  assert (HA : forall m K', m <> "" -> gd (@atom ty m) K') by (intros m K' Hm; apply gdS_gd, atom_gdS; exact Hm).
+  apply por_gdS. repeat constructor.
+  - apply basic_type_gdS.
+  - apply pand_open; [reflexivity|]. intros K' HK'.
+    repeat constructor; try (apply gdS_gd, Hd; exact HK'). apply HA; discriminate.
+  - apply pand_open; [reflexivity|]. intros K' HK'.
+    repeat constructor; try (apply gdS_gd, Hd; exact HK'). apply HA; discriminate.
+  - apply pand_open; [reflexivity|]. intros K' HK'.
+    repeat constructor.
+    + apply kleene_gd, Hd. exact HK'.
+    + apply HA; discriminate.
+    + apply maybe_gd, struct_def_gd.
+Qed.
+
+Lemma parse_within_open_count : forall s, parse_within (S (open_count s)) s = true.
+Proof.
+  intro s. unfold parse_within.
+  pose proof (decl_m_gdS (S (open_count s)) (open_count s) ltac:(lia) s (le_n _)) as H.
+  destruct (fst (decl_m (S (open_count s)) s)); try reflexivity. exfalso. exact H.
+Qed.
+
+Lemma open_count_le_length : forall s, open_count s <= String.length s.
+Proof. induction s as [|c r IH]; cbn [open_count String.length]; [lia|]. destruct (is_open c); lia. Qed.
+
+(* BOUNDED: at most one nested entry of the type rule per opening bracket of the text, and one more;
+   hence at most |s| + 1 *)
+Theorem parse_depth_le_open_count : forall s, parse_depth s <= open_count s + 1.
+Proof. intro s. rewrite Nat.add_1_r. apply parse_depth_le. apply parse_within_open_count. Qed.
+Corollary parse_depth_le_length : forall s, parse_depth s <= String.length s + 1.
+Proof. intro s. pose proof (parse_depth_le_open_count s). pose proof (open_count_le_length s). lia. Qed.
+
+(* the two together on the witness family: exactly n + 1 *)
+Lemma open_count_brackets : forall n rest, open_count (brackets n ++ rest) = n + open_count rest.
+Proof. induction n as [|n IH]; intro rest; cbn [brackets append open_count]; [reflexivity|]. rewrite IH. reflexivity. Qed.
+Theorem parse_depth_brackets_eq : forall n, parse_depth (brackets n) = n + 1.
+Proof.
+  intro n. pose proof (parse_depth_brackets n) as Hlo. pose proof (parse_depth_le_open_count (brackets n)) as Hhi.
+  rewrite <- (sapp_nil_r (brackets n)), open_count_brackets in Hhi. rewrite sapp_nil_r in Hhi.
+  cbn [open_count] in Hhi. lia.
+Qed.
+Theorem parse_depth_nested_list_eq : forall n, parse_depth (nested_list n) = n + 1.
+Proof.
+  intro n. pose proof (parse_depth_nested_list n) as Hlo. pose proof (parse_depth_le_open_count (nested_list n)) as Hhi.
+  unfold nested_list in Hhi at 2. rewrite open_count_brackets in Hhi.
+  assert (Hc : open_count ("i" ++ closes n) = 0).
+  { cbn [append open_count is_open]. clear. induction n as [|n IH]; [reflexivity|]. cbn [closes open_count]. exact IH. }
+  rewrite Hc in Hhi. lia.
+Qed.
+
+(* the members of the family are signatures: n lists around an int32 *)
+Fixpoint list_ty (n : nat) : ty := match n with O => TS SI32 | S n' => TList (list_ty n') end.
+Lemma closes_snoc : forall n, closes n ++ "]" = closes (S n).
+Proof. induction n as [|n IH]; [reflexivity|]. cbn [closes append] in *. now rewrite IH. Qed.
+Lemma print_list_ty : forall n, print (list_ty n) = nested_list n.
+Proof.
+  induction n as [|n IH]; [reflexivity|]. cbn [list_ty print]. rewrite IH. unfold nested_list.
+  cbn [brackets append]. f_equal. rewrite !sapp_assoc. f_equal. cbn [append]. f_equal. apply closes_snoc.
+Qed.
+Lemma list_ty_wf : forall n, wf_ty (list_ty n) = true.
+Proof. induction n as [|n IH]; [reflexivity|exact IH]. Qed.
+Lemma parse_m_nested_list : forall n, parse_m (nested_list n) = POk (list_ty n).
+Proof. intro n. rewrite parse_m_parse, <- print_list_ty. apply parse_print. apply list_ty_wf. Qed.
+
+(* NO CONSTANT BOUND: for every k a signature that Parse accepts and whose parse nests deeper than k *)
+Theorem parse_depth_unbounded : forall k, exists s, parse_m s = POk (list_ty k) /\ k < parse_depth s.
+Proof.
+  intro k. exists (nested_list k). split; [apply parse_m_nested_list|apply parse_depth_nested_list].
+Qed.
